@@ -111,8 +111,55 @@ type c20Acc struct {
 	mu       sync.Mutex
 	eval     map[string]int
 	mism     map[string]int
+	hows     map[string]map[string]int // class key -> the way the result is wrong -> count
+	tabs     map[string]*mfTable
 	examples map[string][]lib.Ev
 	samples  []lib.Ev
+}
+
+// howWrong names the way a result differs from the expected one, so that a listed finding (the clamp: one code
+// below the expected one, the largest finite value where infinity is due) does not cover a different defect in
+// the same class (a number that becomes NaN, a result several codes away).
+func (a *c20Acc) howWrong(fmtName string, got, exp int) string {
+	signBit, magMask, inf := 0x80, 0x7f, -9
+	if fmtName == "bf16" {
+		signBit, magMask, inf = 0x8000, 0x7fff, 0x7f80
+	} else if t := a.tabs[fmtName]; t != nil {
+		inf = t.Inf
+	}
+	switch {
+	case got == -2:
+		return "panic"
+	case got == -3:
+		return "nan-code-decodes-to-number"
+	case got == -4:
+		return "numeric-code-decodes-to-nan"
+	case exp == -1 && got&magMask == inf:
+		return "inf-for-nan"
+	case exp == -1:
+		return "number-for-nan"
+	case got == -1:
+		return "nan-for-number"
+	case got&signBit != exp&signBit:
+		return "sign-differs"
+	}
+	g, e := got&magMask, exp&magMask
+	switch {
+	case e == inf && g < e:
+		if t := a.tabs[fmtName]; t != nil && g == t.MaxFinite {
+			return "max-finite-for-inf"
+		}
+		return "finite-for-inf"
+	case g == inf:
+		return "inf-for-finite"
+	case g == e-1:
+		return "one-code-toward-zero"
+	case g == e+1:
+		return "one-code-away-from-zero"
+	case g < e:
+		return "several-codes-toward-zero"
+	}
+	return "several-codes-away-from-zero"
 }
 
 func (a *c20Acc) add(fmtName, class string, in uint32, got, exp int, sample bool) {
@@ -129,6 +176,10 @@ func (a *c20Acc) add(fmtName, class string, in uint32, got, exp int, sample bool
 	}
 	if !ok {
 		a.mism[key]++
+		if a.hows[key] == nil {
+			a.hows[key] = map[string]int{}
+		}
+		a.hows[key][a.howWrong(fmtName, got, exp)]++
 		if len(a.examples[key]) < 12 {
 			a.examples[key] = append(a.examples[key], mk())
 		}
@@ -164,7 +215,7 @@ func runC20(args []string) {
 		}
 	}
 	full := os.Getenv("H5V_C20_FULL") == "1"
-	acc := &c20Acc{eval: map[string]int{}, mism: map[string]int{}, examples: map[string][]lib.Ev{}}
+	acc := &c20Acc{eval: map[string]int{}, mism: map[string]int{}, examples: map[string][]lib.Ev{}, hows: map[string]map[string]int{}, tabs: tabs}
 
 	conv := func(name string, x uint32) (got int) {
 		f := math.Float32frombits(x)
@@ -334,7 +385,16 @@ func runC20(args []string) {
 				fname, class = k[:i], k[i+1:]
 			}
 		}
-		_ = enc.Encode(lib.Ev{"case": 0, "op": "sum", "fmt": fname, "class": class, "evaluated": acc.eval[k] % 2000000000, "mismatches": acc.mism[k] % 2000000000})
+		hows := []map[string]interface{}{}
+		hk := make([]string, 0, len(acc.hows[k]))
+		for h := range acc.hows[k] {
+			hk = append(hk, h)
+		}
+		sort.Strings(hk)
+		for _, h := range hk {
+			hows = append(hows, map[string]interface{}{"how": h, "n": acc.hows[k][h] % 2000000000})
+		}
+		_ = enc.Encode(lib.Ev{"case": 0, "op": "sum", "fmt": fname, "class": class, "evaluated": acc.eval[k] % 2000000000, "mismatches": acc.mism[k] % 2000000000, "hows": hows})
 		total += acc.eval[k]
 		bad += acc.mism[k]
 	}
